@@ -10,12 +10,15 @@ from tools import shroudrun
 def main():
     spec = json.loads(sys.argv[1])
     res = []
+    import os
     for item in spec:
+        # the file lists a build system asks for are output too (their order must be repeatable)
+        lists = dict(cfiles=os.path.join(item["outdir"], "_cfiles.txt"), ffiles=os.path.join(item["outdir"], "_ffiles.txt"))
         if "corpus" in item:
-            cfg, exc, out = shroudrun.run_corpus_inproc(item["corpus"], item["outdir"], item.get("options", ()))
+            cfg, exc, out = shroudrun.run_corpus_inproc(item["corpus"], item["outdir"], item.get("options", ()), **lists)
         else:
             cfg, exc, out = shroudrun.run_inproc([item["yaml"]], item["outdir"], options=item.get("options", ()),
-                                                 language=item.get("language"), path=item.get("path"))
+                                                 language=item.get("language"), path=item.get("path"), **lists)
         res.append(None if exc is None else "%s: %s" % (type(exc).__name__, exc))
     print(json.dumps(res))
 
